@@ -31,6 +31,10 @@
   the same for the list wrappers (per-call counts sum to the one-shot count). All three suspension sites (end of
   buffer, white space up to the end of buffer, open quoted string) are valid restart points once the end of buffer
   becomes a terminator.
+  Schedule corollaries for the remaining parsers and ParseOnePAI (`Sipsp.Proofs.AuditFixB`, asked for by the review):
+  `schedule_fline`, `schedule_contacts`, `schedule_pais`, `schedule_hdrline`, `schedule_headers` (every chunk schedule,
+  from new objects of any capacity and from any legitimate object), `resume_onepai`, `stable_onepai`, `schedule_onepai`
+  (ParseOnePAI remaps a `*` value to the bad-value verdict), `what_rr_gives` (what the relational law gives a caller).
   `all_parsers_partial` (kept): the generic schedule statement for ANY parser with a one-step law — every theorem
   above instantiates it.
   NOT proved: schedules in which a call before the last one already carries the end-of-input option (a misuse: the
@@ -46,6 +50,7 @@ import Sipsp.Proofs.HeadersL2
 import Sipsp.Model.Msg
 import Sipsp.Proofs.UriListsL
 import Sipsp.Proofs.TokParamEnd
+import Sipsp.Proofs.AuditFixB
 
 namespace Sipsp.C02
 open Sipsp
@@ -233,5 +238,38 @@ theorem schedule_uriparams_end : type_of% @Sipsp.parseAllURIParams_schedule_end 
 
 /-- **ParseAllURIHdrs under every chunk schedule whose last call carries the end-of-input option** -/
 theorem schedule_urihdrs_end : type_of% @Sipsp.parseAllURIHdrs_schedule_end := @Sipsp.parseAllURIHdrs_schedule_end
+
+/-! ### schedule corollaries for the remaining parsers; ParseOnePAI (proved in `Sipsp.Proofs.AuditFixB`) -/
+
+/-- the one-step law spelled out, with everything the proof yields: the invariant on the extended buffer, the object
+    is not finished, the returned offset lies between the start offset and the end of the parsed buffer -/
+theorem resume_onepai : type_of% @Sipsp.afb_onePAI_resume := @Sipsp.afb_onePAI_resume
+
+/-- L1: a definitive result is the result on every extension -/
+theorem stable_onepai : type_of% @Sipsp.afb_onePAI_stable := @Sipsp.afb_onePAI_stable
+
+/-- **every chunk schedule, ParseOnePAI, from a new object** at an offset inside the first chunk -/
+theorem schedule_onepai : type_of% @Sipsp.afb_onePAI_schedule := @Sipsp.afb_onePAI_schedule
+
+/-- … from a new object -/
+theorem schedule_fline : type_of% @Sipsp.afb_fline_schedule := @Sipsp.afb_fline_schedule
+
+/-- **every chunk schedule, ParseAllContactValues, from a new object** over a cleared array of any capacity -/
+theorem schedule_contacts : type_of% @Sipsp.afb_contacts_schedule := @Sipsp.afb_contacts_schedule
+
+/-- **every chunk schedule, ParseAllPAIValues, from a new object** -/
+theorem schedule_pais : type_of% @Sipsp.afb_pais_schedule := @Sipsp.afb_pais_schedule
+
+/-- **every chunk schedule, ParseHdrLine, from a new header** with new header values (contact array of any capacity)
+    or none (`nil = true`) -/
+theorem schedule_hdrline : type_of% @Sipsp.afb_hdrline_schedule := @Sipsp.afb_hdrline_schedule
+
+/-- **every chunk schedule, ParseHeaders, from a new header list** (cleared array of any capacity) with new header
+    values (contact array of any capacity) or none -/
+theorem schedule_headers : type_of% @Sipsp.afb_headers_schedule := @Sipsp.afb_headers_schedule
+
+/-- what `RR` gives a caller: same offset, same verdict; the very same object whenever the verdict is one after which
+    parsing goes on (OK, MoreBytes, MoreValues, Empty) -/
+theorem what_rr_gives : type_of% @Sipsp.afb_RR_use := @Sipsp.afb_RR_use
 
 end Sipsp.C02
